@@ -32,6 +32,7 @@ EXPLANATION = (
     "addressed with a scalar integer subscript (label based) before array normalisation; branches that no caller can "
     "enable (constant propagation over the complete caller set) are pruned. Not decided: insensitivity to inserted "
     "non-reversal samples (depends on values and on the kept tail).")
+EXPLANATION += (' R-C03-4: the carried sample tail is an unfiltered suffix of the analysed samples cut at the last turning point (shared with R-C01-2: its length is the position offset of the next chunk), and no detector re-orders or selects the incoming samples by index label (sort_index, sort_values, reindex, .loc).')
 ASSUMPTIONS = [
     "numpy element-wise arithmetic on floats transforms like real arithmetic under x -> a*x+b, a>0 and x -> -x",
     "slicing a pandas Series with integer slice bounds is positional; a scalar integer subscript is label based",
@@ -211,6 +212,45 @@ def run(ctx):
     ctx.attempt(_r1_typing)
     ctx.attempt(_r2_nan)
     ctx.attempt(_r3_labels)
+    ctx.attempt(_r4_positions)
+
+
+def _r4_positions(ctx):
+    """Reported indices are positions in the original signal: (a) the carried sample tail is a suffix of the analysed samples,
+    cut at the last turning point, with nothing removed from it (its length is the position offset of the next chunk) -
+    analysis shared with R-C01-2; (b) a labelled input (pandas Series) is taken positionally: it is never re-ordered or
+    selected by label (sort_index, sort_values, reindex, .loc) before it is turned into an array."""
+    prog = ctx.prog
+    ctx.rule("R-C03-4", floor=5, what="sample tail is an unfiltered suffix (offsets stay positions); labelled input is never re-ordered by label")
+    from .c01 import _r2_new_turns_core
+    _r2_new_turns_core(ctx, prog)
+    dets = prog.subclasses(GEN + ":AbstractDetector")
+    helper = prog.func(GEN + ":AbstractDetector._new_turns")
+    # (the FKM-nonlinear detector takes (load_step, node_id)-indexed series whose labels carry meaning; it is not in C03's scope)
+    fns = [ci.methods["process"][-1] for ci in dets if "process" in ci.methods and ci.name != "FKMNonlinearDetector"] + [helper]
+    for fi in fns:
+        chunk = [q for q in fi.params if q != "self"][0]
+        names = {chunk}
+        bad = None
+        for st in walk_function(fi.node):
+            for c in calls_in(st) if isinstance(st, ast.stmt) else []:
+                if isinstance(c.func, ast.Attribute) and c.func.attr in ("sort_index", "sort_values", "reindex", "sample") and \
+                        isinstance(c.func.value, ast.Name) and c.func.value.id in names:
+                    bad = (st, c)
+            for n in ast.walk(st):
+                if isinstance(n, ast.Subscript) and isinstance(n.value, ast.Attribute) and n.value.attr == "loc" and \
+                        isinstance(n.value.value, ast.Name) and n.value.value.id in names:
+                    bad = (st, n)
+            if isinstance(st, ast.Assign) and isinstance(st.targets[0], ast.Name) and isinstance(st.value, ast.Name) and st.value.id in names:
+                names.add(st.targets[0].id)
+        if bad:
+            ctx.violated(fi, bad[0], "%s: %s re-orders / selects the incoming samples by their index labels: a Series is to be treated "
+                         "exactly like its value array, whatever its index" % (fi.cls.name + "." + fi.name if fi.cls else fi.name,
+                                                                              norm_text(bad[1])), text="label order " + norm_text(bad[1])[:60])
+        else:
+            ctx.holds(fi, fi.node, "%s: incoming samples are not re-ordered or selected by label" %
+                      (fi.cls.name + "." + fi.name if fi.cls else fi.name))
+
 
 
 def _type_function(ctx, fi, body, typer, group, what, skip=()):
@@ -752,6 +792,22 @@ FP = "src/pylife/stress/rainflow/fourpoint.py"
 
 def variants():
     out = []
+
+    def sort_series(tree):
+        f = find_func(tree, "FourPointDetector.process")
+        i = 1 if isinstance(f.body[0], ast.Expr) and isinstance(f.body[0].value, ast.Constant) else 0
+        f.body.insert(i, parse_stmt("if hasattr(samples, 'sort_index'):\n    samples = samples.sort_index()"))
+        return True
+    out.append(witness("four-point detector sorts a Series by its index", FP, sort_series, "R-C03-4"))
+
+    def tail_without_nans(tree):
+        f = find_func(tree, "AbstractDetector._new_turns")
+        for i, st in enumerate(f.body):
+            if isinstance(st, ast.Assign) and is_self_attr(st.targets[0], "_sample_tail"):
+                f.body.insert(i + 1, parse_stmt("self._sample_tail = self._sample_tail[~pd.isna(self._sample_tail)]"))
+                return True
+        return False
+    out.append(witness("NaNs stripped from the carried tail", GP, tail_without_nans, "R-C03-4"))
 
     def no_concat_when_no_tail(tree):
         f = find_func(tree, "AbstractDetector._new_turns")
